@@ -1336,7 +1336,7 @@ def interplay_docs() -> list[tuple[str, dict]]:
         S = {"Dog": {"type": "object", "properties": {"bark": {"type": "integer"}}},
              "Holder": {"type": "object", "required": ["ra"], "properties": {
                  "a": dict(nul("object"), allOf=[R("Dog")]), "c": dict(nul("object"), oneOf=[R("Dog")]), "e": dict(nul("object"), anyOf=[R("Dog")]), "ra": dict(nul("object"), allOf=[R("Dog")]),
-                 "d": dict(nul("string"), allOf=[{"type": "string", "format": "date"}]), "plain": dict(nul("object"), properties={"k": {"type": "string"}})}}}
+                 "day": dict(nul("string"), allOf=[{"type": "string", "format": "date"}]), "plain": dict(nul("object"), properties={"k": {"type": "string"}})}}}
         mk(f"typed_nullable_wrapper_{version}", schemas=S, version=version)
     # tags and operation ids named after the package's own modules and dunder files
     for tag in ("types", "errors", "client", "models", "api", "init", "__init__", "default", "py.typed", "import", "None"):
